@@ -27,10 +27,6 @@ Ltac so0_fwd :=
     specialize (H P); destruct H as (? & ? & ? & ?); clear P
   end.
 
-Ltac split_state_if := repeat match goal with
-  | |- context [if ?c then set_susp true _ else _] => let E := fresh "E" in destruct c eqn:E
-  | H : context [if ?c then set_susp true _ else _] |- _ => let E := fresh "E" in destruct c eqn:E
-  end.
 Ltac fin_so :=
   repeat match goal with |- _ /\ _ => split end;
   unfold u, startd_unfired in *; psimpl; repeat rewrite count_startd_app in *; cbn [count_startd app] in *;
@@ -57,7 +53,7 @@ Proof.
   intros H Hi Hp. unfold handle in H. cbn zeta in H. destruct e; unfold acc, start_accepted.
   - (* start *) unfold do_fetch, startd_errback, flush_pend in H. mi H; fin_so.
   - unfold api_stop in H. mi H; so0_all; so0_fwd; fin_so.
-  - (* shutdown *) unfold flush_pend in H. mi H; split_state_if; so_raw; fin_so.
+  - (* shutdown *) unfold api_shutdown in H. mi H; split_state_if; so_raw; fin_so.
   - unfold api_commit in H. mi H; so0_all; so0_fwd; fin_so.
   - mi H; so0_all; so0_fwd; fin_so.
   - mi H; so0_all; so0_fwd; fin_so.
@@ -105,7 +101,7 @@ Proof.
   destruct (s_ccall s) eqn:Ecc; [discriminate|].
   apply step_inv in H. destruct H as (o1 & H & ->).
   unfold handle in H. cbn zeta in H. destruct e; try (exfalso; eapply Hs; reflexivity); try (exfalso; apply Hc; reflexivity).
-  all: unfold api_stop in H; try (destruct fuel; cbn [run] in H; [|unfold body in H]).
+  all: unfold api_stop, api_shutdown in H; try (destruct fuel; cbn [run] in H; [|unfold body in H]).
   all: mi H.
   all: unfold quiescent, is_none, is_some, rcall_active, looper_armed, is_nil; psimpl;
        rewrite ?Esd, ?Ereq, ?Eproc, ?Emb, ?Ecds, ?Ecreq, ?Ecc; cbn [negb andb].
